@@ -921,3 +921,39 @@ Proof.
     + apply sense_out_iff, Hout, sense_out_iff in E1. congruence.
     + apply sense_out_iff, Hout, sense_out_iff in E2. congruence.
 Qed.
+
+(** ** FINDING F6: a GenPrism whose +z face is collapsed to a line, with twisted
+    side faces.  [build] omits the +z plane (degen_ = hi) and emits
+      - the -z plane,
+      - face 0 (its top edge is a single point): a plane through ilo with the
+        unit normal of (jlo - ilo) x (ihi - ilo),
+      - faces 1 and 2: twisted quadrics
+    (exactly what the real build prints for this prism: corpus case F6 of
+    props/C09/run.py).  The point (2/5, -1/5, 2), which is ABOVE the prism
+    (z = 2 > hz = 1), satisfies all four signed surfaces. *)
+Definition f6_lo : list (R * R) := [(1, 1); (-1, 0); (1, -1)].
+Definition f6_hi : list (R * R) := [(0, 1 / 5); (0, 1 / 5); (1 / 2, - 3 / 10)].
+Definition f6_surfaces : list (bsense * surface R) :=
+  let ilo0 := V3 1 1 (-1) in let jlo0 := V3 (-1) 0 (-1) in let ihi0 := V3 0 (1 / 5) 1 in
+  [(BOut, planeZ (- 1));
+   (BIn, plane_pt (make_unit_vector (cross (vsub jlo0 ilo0) (vsub ihi0 ilo0))) ilo0);
+   (BIn, twisted_quadric 1 (V3 (-1) 0 (-1)) (V3 1 (-1) (-1)) (V3 (1 / 2) (- 3 / 10) 1) (V3 0 (1 / 5) 1));
+   (BIn, twisted_quadric 1 (V3 1 (-1) (-1)) (V3 1 1 (-1)) (V3 0 (1 / 5) 1) (V3 (1 / 2) (- 3 / 10) 1))].
+
+Theorem genprism_degenerate_twisted_refuted :
+  exists p, on_any f6_surfaces p = false /\ all_hold f6_surfaces p = true /\ inside_genprism 1 f6_lo f6_hi p = false.
+Proof.
+  exists (V3 (2 / 5) (- 1 / 5) 2).
+  assert (Hpl : forall n q, plane_pt (T:=R) n q = SPlane n (dot q n)).
+  { intros n q. unfold plane_pt. f_equal. unfold dot. numR. ring. }
+  split; [|split].
+  - unfold f6_surfaces, planeZ. cbv zeta. rewrite Hpl. senses.
+    rewrite plane_unit_value_pos. grab_norm k1 Hk1; [unfold vsub; cbn [vx vy vz]; numR; lra|].
+    rewrite pos_mul_ne0 by assumption.
+    unfold twisted_quadric, cross, vsub, surf_f. vsimp. unfold n2. numR. repeat split; lra.
+  - unfold f6_surfaces, planeZ. cbv zeta. rewrite Hpl. senses.
+    rewrite plane_unit_value_pos. grab_norm k1 Hk1; [unfold vsub; cbn [vx vy vz]; numR; lra|].
+    rewrite pos_mul_lt0 by assumption.
+    unfold twisted_quadric, cross, vsub, surf_f. vsimp. unfold n2. numR. repeat split; lra.
+  - apply not_true_is_false. unfold inside_genprism. bools. cbn [vz]. intros [[_ Hz] _]. lra.
+Qed.
